@@ -486,6 +486,21 @@ func runC14(rc *RunCtx, faults bool) {
 	usedPath := map[string]bool{}
 	for i := 0; i < nreq; i++ {
 		r := &fReq{Path: fmt.Sprintf("dir/f%d.bin", i), ObjIdx: -1}
+		// Git hands path names over verbatim: white space at either end,
+		// '=' and other bytes are part of the name
+		switch t.Choose(12, "path-form") {
+		case 1:
+			r.Path = fmt.Sprintf("dir/trail%d ", i)
+		case 2:
+			r.Path = fmt.Sprintf(" lead%d.bin", i)
+		case 3:
+			r.Path = fmt.Sprintf("x%d\t", i)
+		case 4:
+			r.Path = fmt.Sprintf("a=b/c%d=d.bin", i)
+		case 5:
+			// differs from another request's name only by trailing white space
+			r.Path = fmt.Sprintf("dir/f%d.bin ", (i+1)%nreq)
+		}
 		usedPath[r.Path] = true
 		r.PktSize = []int{65516, 1, 7, 100, 1000, 65515, 32768}[t.Choose(7, "pkt-size")]
 		switch t.Choose(5, "req-kind") {
